@@ -99,13 +99,16 @@ def run(tier: str, seed: int, replay=None) -> int:
     rep.rule = ("corpus + seeded histories 'garbage prefix (1-3 rounds quick / 1-6 thorough of New, Relate, Drop, Sweep, rarely Clear) then "
                 "2-7 assertions' + the exhaustive length-4 histories of C13 + metamorphic descriptor cases (1-3 persons, 1-3 companies, "
                 "1-6 assignments, 1-4 garbage rounds of 1-5 related pairs, in half of the cases 0-2 dead companies that were sub-organisations of "
-                "the companies of the assertions, swept or not); non-trivial = >= 4 ops of >= 3 kinds (histories), every meta case")
+                "the companies of the assertions, swept or not) + 16 clone scenarios (copy.copy of a Person / Company sharing its managed "
+                "containers, template collected or alive, swept or not, then an assertion through the clone); non-trivial = >= 4 ops of >= 3 kinds (histories), every meta case")
     ok_spec, log = core.coq_make(["Base/Sx.vo", "Onto/RegistrySpec.vo", "Onto/RegistrySpecRun.vo"])
     rep.oblige("build:spec", ok_spec, "" if ok_spec else core.first_error(log))
     model_ok = c13.proof_steps(rep, PROP)
     rng = core.Rng(seed)
     n = 1 if tier == "quick" else 12
-    if replay and replay.get("meta") is not None:
+    if replay and replay.get("clone") is not None:
+        hists, metas = [], []
+    elif replay and replay.get("meta") is not None:
         hists, metas = [], [replay["meta"]]
     elif replay and replay.get("case") is not None:
         hists, metas = [replay["case"]], []
@@ -139,8 +142,19 @@ def run(tier: str, seed: int, replay=None) -> int:
         elif r["fresh"]["rels"]:
             diff_fields += 1
     rep.extra["meta"] = {"cases": len(metas), "with_relations": diff_fields}
+    # (c) clones: copy.copy of a Symbol shares its managed containers; the template dies (or not) before the clone asserts
+    if replay and replay.get("clone") is not None:
+        clones = [replay["clone"]]
+    elif replay:
+        clones = []
+    else:
+        clones = [{"rounds": 2, "side": sd, "before": b, "drop_template": d, "sweep": sw}
+                  for sd in ("person", "company") for b in (0, 2) for d in (True, False) for sw in (False, True)]
+    c13.scenario_jobs(rep, "clone", clones, "a relation asserted through the managed field of a copy.copy clone (the template dropped and "
+                      "collected, or still alive) is not recorded for the clone / its inverse is missing: the template's (dead) owner "
+                      "reference in the shared container suppresses or redirects it")
     rep.samples = [{"case": h} for h in hists[-3:]] + [{"meta": m} for m in metas[:2]]
-    if not (replay and (replay.get("case") is not None or replay.get("meta") is not None)):
+    if not (replay and (replay.get("case") is not None or replay.get("meta") is not None or replay.get("clone") is not None)):
         c13.replay_findings(rep, PROP, model_ok, {})
         # findings whose witness is a metamorphic case
         mf = [f for f in core.load_findings(PROP) if "meta" in json.loads((core.VERIF / f.witness).read_text())]
